@@ -1,5 +1,6 @@
 #!/bin/bash
 # usage: fuzz/run.sh <target> [runs] [extra libFuzzer args]   — coverage-guided campaign with the in-target oracle
+# the campaign ends after <runs> executions or VERIF_FUZZ_SECONDS (default 600), whichever comes first: both are budgets, not verdicts
 # exit 0 = no violation within the budget, 1 = crash artifact written (replay: ./check replay on {"property","section","bytes_hex"}), 2 = build problem
 ROOT="$(cd "$(dirname "$0")/.." && pwd)"
 cd "$ROOT/harness/rdpcheck" || exit 2
@@ -9,7 +10,7 @@ export CARGO_NET_OFFLINE=true RUSTC_BOOTSTRAP=1 SSL_CERT_FILE=/dev/null SSL_CERT
 cargo fuzz build --fuzz-dir "$F" "$t" >/tmp/fuzz-build.$$.log 2>&1 || { tail -20 /tmp/fuzz-build.$$.log; rm -f /tmp/fuzz-build.$$.log; exit 2; }
 rm -f /tmp/fuzz-build.$$.log
 mkdir -p $F/corpus/"$t"
-cargo fuzz run --fuzz-dir "$F" "$t" -- -runs="$runs" -seed="${VERIF_SEED:-1}" -len_control=0 -max_len=512 -print_final_stats=1 "$@" > $F/fuzz-"$t".log 2>&1; rc=$?
+cargo fuzz run --fuzz-dir "$F" "$t" -- -runs="$runs" -max_total_time="${VERIF_FUZZ_SECONDS:-600}" -seed="${VERIF_SEED:-1}" -len_control=0 -max_len=512 -print_final_stats=1 "$@" > $F/fuzz-"$t".log 2>&1; rc=$?
 grep -E "stat::number_of_executed_units|cov:|VIOLATION" $F/fuzz-"$t".log | tail -4
 [ $rc -eq 0 ] && exit 0
 ls $F/artifacts/"$t"/ 2>/dev/null | tail -3
